@@ -12,6 +12,11 @@
     keccak.loaddump <w> b<size>:<ival> <r>            State(w).load(B) lanes ; dump(r)
     sha3 <n> <msg>    shake <128|256> <msg> <dbits>
     keccak.duplex <b> <r> | <msg> <bitlen|None> <outlen|None> | …                             results joined by ;
+    keccak.seq <cfg> | <step> | <step> …              ONE object, a history of duplex() and one-shot calls; results joined by ;
+        cfg  = keccak <b> <r> <N|L> <d>  (Keccak(b,r,len=d), duplexing = L)  |  sha3 <n>  (SHA3(n))  |  single <n> <N|L>  (keccak_<n>)
+        step = duplex <msg> <bitlen|None> <outlen|None>  |  call <msg> <bitlen|None> [r=<rc>]  |  hash <msg>  (SHA3.__call__)
+        spec: duplex steps = the reference duplex over the duplex steps of the line; call/hash steps = the reference sponge /
+        SHA3-n of THAT step's arguments in the object's configured bit order
   Spec answer `-` = outside the domain of the reference (rate 0 or ≥ b, duplex output longer than the rate …).
 -/
 import Driver.Wire
@@ -146,8 +151,88 @@ def duplexLine (b r : Nat) (steps : List (List Nat × Option Nat × Option Nat))
         | none => "ERR")
   (m, s)
 
+/-! ### `keccak.seq`: one object, a history of duplex() and one-shot calls -/
+
+inductive SeqCfg where
+  | keccak (b r : Nat) (lsb : Bool) (d : Nat)
+  | sha3 (n : Nat)
+  | single (n : Nat) (lsb : Bool)
+
+def parseSeqCfg? : List String → Option SeqCfg
+  | ["keccak", b, r, mode, d] => do
+      let b ← parseNat? b; let r ← parseNat? r; let lsb ← parseMode? mode; let d ← parseNat? d
+      pure (.keccak b r lsb d)
+  | ["sha3", n] => do let n ← parseNat? n; pure (.sha3 n)
+  | ["single", n, mode] => do let n ← parseNat? n; let lsb ← parseMode? mode; pure (.single n lsb)
+  | _ => none
+
+def parseSeqStep? : List String → Option Keccak.SeqStep
+  | ["duplex", m, bl, ol] => do
+      let m ← parseBytes? m; let bl ← parseOptNat? bl; let ol ← parseOptNat? ol
+      pure (.duplex m bl ol)
+  | "call" :: m :: bl :: opts => do
+      let m ← parseBytes? m; let bl ← parseOptNat? bl
+      let (sr, rc) ← parseOpts? opts
+      if sr.isSome then none else pure (.call m bl rc)
+  | ["hash", m] => do let m ← parseBytes? m; pure (.sha3call m)
+  | _ => none
+
+def seqCfgModel : SeqCfg → Except Err Keccak.Cfg
+  | .keccak b r lsb d => (Keccak.mk b r (some d)).map fun c => { c with duplexing := lsb }
+  | .sha3 n => Sha3.sha3Cfg n
+  | .single n lsb => (Keccak.singleton n).map fun c => { c with duplexing := lsb }
+
+/-- (b, r, native bit order, output bits) the reference works with; none: no such object -/
+def seqCfgSpec : SeqCfg → Option (Nat × Nat × Bool × Nat)
+  | .keccak b r lsb d => if widths.contains b ∧ r ≤ 1536 then some (b, r, lsb, d) else none
+  | .sha3 n => if [224, 256, 384, 512].contains n then some (1600, 1600 - 2 * n, true, n) else none
+  | .single n lsb => if [224, 256, 384, 512].contains n then some (1600, 1600 - 2 * n, lsb, n) else none
+
+def seqLine (cfg : SeqCfg) (steps : List Keccak.SeqStep) : String × String :=
+  let m := match seqCfgModel cfg with
+    | .error _ => "ERR"
+    | .ok c => ";".intercalate ((Keccak.seqRun { cfg := c } steps).map fmtRes)
+  let s := match seqCfgSpec cfg with
+    | none => "ERR"
+    | some (b, r, lsb, d) =>
+      let w := b / 25
+      let dsteps := steps.filterMap fun
+        | .duplex m bl ol => some (m, bl, ol)
+        | _ => none
+      if r = 0 ∨ r ≥ b ∨ d = 0 ∨ dsteps.any (fun st => st.2.2.getD r > r) then "-" else
+      let ins := dsteps.map fun (st : List Nat × Option Nat × Option Nat) =>
+        let σ := if st.2.1.getD 0 > 8 * st.1.length then List.replicate (r + 1) false else specBits true st.1 st.2.1
+        (σ, st.2.2.getD r)
+      let douts := (Spec.Keccak.duplexSeq (Spec.Keccak.fString w) b r (List.replicate b false) ins).map fun o =>
+        match o with
+        | some z => fmtBytes (Spec.Keccak.bytesOfBits z)
+        | none => "ERR"
+      let rec go : List Keccak.SeqStep → List String → List (Option String)
+        | [], _ => []
+        | .duplex .. :: rest, douts => douts.head? :: go rest douts.tail
+        | .call M bl rc :: rest, douts =>
+          let re := rc.getD r
+          (if re = 0 ∨ re ≥ b ∨ re > 1536 then none
+           else if bl.getD 0 > 8 * M.length then some "ERR"
+           else some (fmtBytes (Spec.Keccak.bytesOfBits (Spec.Keccak.keccak w re (specBits lsb M bl) d)))) :: go rest douts
+        | .sha3call M :: rest, douts =>
+          (match cfg with
+           | .sha3 n => some (fmtBytes (Spec.Keccak.sha3 n M))
+           | _ => some (fmtBytes (Spec.Keccak.bytesOfBits (Spec.Keccak.keccak w r
+                    (specBits lsb (M ++ [0x02]) (some (8 * M.length + 2))) d)))) :: go rest douts
+      let outs := go steps douts
+      if outs.any Option.isNone then "-" else ";".intercalate (outs.map (·.getD "-"))
+  (m, s)
+
 def handle : Handler := fun op args =>
   match op, args with
+  | "keccak.seq", toks => do
+      match splitBar toks with
+      | cfg :: steps => do
+          let cfg ← parseSeqCfg? cfg
+          let steps ← steps.mapM parseSeqStep?
+          pure (seqLine cfg steps)
+      | [] => none
   | "keccak", [b, r, mode, msg, bl, d] => do
       let b ← parseNat? b; let r ← parseNat? r; let lsb ← parseMode? mode
       let msg ← parseBytes? msg; let bl ← parseOptNat? bl; let d ← parseNat? d
